@@ -173,6 +173,128 @@ var subC02 = core.NewSub("C02/grouplaw", func(w *core.Worker, c ptBinCase) *core
 	return nil
 })
 
+// A point variable is used as an operand, then overwritten through some
+// writer, then used again: whatever a tree caches inside a Point about its
+// last use must not survive the overwrite.
+type staleCase struct {
+	Writer string `json:"writer"`
+	Reader string `json:"reader"`
+	Old    ptIn   `json:"old"`
+	New    ptIn   `json:"new"`
+}
+
+var staleWriters = []string{"Set", "SetBytes", "SetExtendedCoordinates", "SetExtendedCoordinates-scaled", "Negate", "Negate-self", "Add", "Subtract", "MultByCofactor", "ScalarMult", "ScalarBaseMult", "VarTimeDoubleScalarBaseMult", "MultiScalarMult", "VarTimeMultiScalarMult"}
+var staleReaders = []string{"Add-second", "Add-first", "Subtract-second", "Subtract-first", "Equal", "Bytes", "BytesMontgomery", "ScalarMult", "VarTimeDoubleScalarBaseMult", "Negate", "MultByCofactor", "MultiScalarMult"}
+
+func staleRead(reader string, q *edwards25519.Point, qm ref.Pt) ([]byte, []byte) {
+	B := ref.Base()
+	enc := func(p ref.Pt) []byte { e := ref.Encode(p); return e[:] }
+	R := ref.Mul(big.NewInt(5), B)
+	rp := alpha.MakePoint(R, 6)
+	k := mkScalar(big.NewInt(9))
+	switch reader {
+	case "Add-second":
+		return new(edwards25519.Point).Add(rp, q).Bytes(), enc(ref.Add(R, qm))
+	case "Add-first":
+		return new(edwards25519.Point).Add(q, rp).Bytes(), enc(ref.Add(qm, R))
+	case "Subtract-second":
+		return new(edwards25519.Point).Subtract(rp, q).Bytes(), enc(ref.Sub(R, qm))
+	case "Subtract-first":
+		return new(edwards25519.Point).Subtract(q, rp).Bytes(), enc(ref.Sub(qm, R))
+	case "Equal":
+		e := byte(0)
+		if qm.Equal(R) {
+			e = 1
+		}
+		return []byte{byte(q.Equal(rp))}, []byte{e}
+	case "Bytes":
+		return q.Bytes(), enc(qm)
+	case "BytesMontgomery":
+		m := ref.Montgomery(qm)
+		return q.BytesMontgomery(), m[:]
+	case "ScalarMult":
+		return new(edwards25519.Point).ScalarMult(k, q).Bytes(), enc(ref.Mul(big.NewInt(9), qm))
+	case "VarTimeDoubleScalarBaseMult":
+		return new(edwards25519.Point).VarTimeDoubleScalarBaseMult(k, q, k).Bytes(), enc(ref.Add(ref.Mul(big.NewInt(9), qm), ref.Mul(big.NewInt(9), B)))
+	case "Negate":
+		return new(edwards25519.Point).Negate(q).Bytes(), enc(ref.Neg(qm))
+	case "MultByCofactor":
+		return new(edwards25519.Point).MultByCofactor(q).Bytes(), enc(ref.Mul(big.NewInt(8), qm))
+	case "MultiScalarMult":
+		return new(edwards25519.Point).MultiScalarMult([]*edwards25519.Scalar{k, k}, []*edwards25519.Point{q, rp}).Bytes(), enc(ref.Add(ref.Mul(big.NewInt(9), qm), ref.Mul(big.NewInt(9), R)))
+	}
+	panic("bad reader")
+}
+
+var subC02Stale = core.NewSub("C02/overwritten-operand", func(w *core.Worker, c staleCase) *core.Fail {
+	q := c.Old.point()
+	om, nm := c.Old.model(), c.New.model()
+	// first use (every reader once, so that anything memoised is memoised)
+	for _, r := range staleReaders {
+		if g, want := staleRead(r, q, om); !bytes.Equal(g, want) {
+			return core.Failf("%s on %s: %x want %x", r, c.Old.Enc, g, want)
+		}
+	}
+	// overwrite q so that it now holds New
+	B := ref.Base()
+	one := mkScalar(big.NewInt(1))
+	src := c.New.point()
+	switch c.Writer {
+	case "Set":
+		q.Set(src)
+	case "SetBytes":
+		e := ref.Encode(nm)
+		if _, err := q.SetBytes(e[:]); err != nil {
+			return core.Failf("SetBytes rejected a valid encoding")
+		}
+	case "SetExtendedCoordinates":
+		X, Y, Z, T := src.ExtendedCoordinates()
+		if _, err := q.SetExtendedCoordinates(X, Y, Z, T); err != nil {
+			return core.Failf("SetExtendedCoordinates rejected valid coordinates")
+		}
+	case "SetExtendedCoordinates-scaled": // the SAME point as before, in another representation
+		nm = om
+		X, Y, Z, T := q.ExtendedCoordinates()
+		two := new(field.Element).Add(new(field.Element).One(), new(field.Element).One())
+		X.Multiply(X, two)
+		Y.Multiply(Y, two)
+		Z.Multiply(Z, two)
+		T.Multiply(T, two)
+		if _, err := q.SetExtendedCoordinates(X, Y, Z, T); err != nil {
+			return core.Failf("SetExtendedCoordinates rejected scaled coordinates")
+		}
+	case "Negate":
+		q.Negate(alpha.MakePoint(ref.Neg(nm), c.New.Form))
+	case "Negate-self":
+		nm = ref.Neg(om)
+		q.Negate(q)
+	case "Add":
+		q.Add(alpha.MakePoint(ref.Sub(nm, B), c.New.Form), alpha.MakePoint(B, 3))
+	case "Subtract":
+		q.Subtract(alpha.MakePoint(ref.Add(nm, B), c.New.Form), alpha.MakePoint(B, 5))
+	case "MultByCofactor":
+		nm = ref.Mul(big.NewInt(8), nm)
+		q.MultByCofactor(src)
+	case "ScalarMult":
+		q.ScalarMult(one, src)
+	case "ScalarBaseMult":
+		nm = B
+		q.ScalarBaseMult(one)
+	case "VarTimeDoubleScalarBaseMult":
+		q.VarTimeDoubleScalarBaseMult(one, src, edwards25519.NewScalar())
+	case "MultiScalarMult":
+		q.MultiScalarMult([]*edwards25519.Scalar{one}, []*edwards25519.Point{src})
+	case "VarTimeMultiScalarMult":
+		q.VarTimeMultiScalarMult([]*edwards25519.Scalar{one}, []*edwards25519.Point{src})
+	}
+	g, want := staleRead(c.Reader, q, nm)
+	if !bytes.Equal(g, want) {
+		return core.Failf("%s on a variable that held %s, was used as an operand, and was then overwritten by %s with %s: %x want %x", c.Reader, c.Old.Enc, c.Writer, fmtPt(nm), g, want)
+	}
+	w.Distinct("nontrivial:results", g)
+	return nil
+})
+
 func init() { register("C02", "exploration", runC02) }
 
 func runC02(ctx *core.Ctx) {
@@ -200,6 +322,20 @@ func runC02(ctx *core.Ctx) {
 	all := pointIns(smoke(ctx), []int{0, 1, 2, 3, 4, 5, 6, 7})
 	un := []string{"Negate", "MultByCofactor", "AddSelfPtr", "SubSelfPtr", "NegateRecv", "CofactorRecv", "AddAllSame", "SubAllSame"}
 	subC02.Run(ctx, len(all)*len(un), func(i int) ptBinCase { return ptBinCase{un[i%len(un)], all[i/len(un)], all[i/len(un)]} })
+	var sc []staleCase
+	olds := pointIns(true, []int{0, 6})
+	for oi, o := range olds {
+		if oi%sz(ctx, 5, 3, 1) != 0 {
+			continue
+		}
+		n := olds[(oi+7)%len(olds)]
+		for _, wr := range staleWriters {
+			for _, rd := range staleReaders {
+				sc = append(sc, staleCase{wr, rd, o, n})
+			}
+		}
+	}
+	subC02Stale.RunList(ctx, sc)
 	ctx.Extra("points", len(alpha.Points(smoke(ctx))))
 }
 
